@@ -1,0 +1,14 @@
+// Copyright Suneido Software Corp. All rights reserved.
+// Governed by the MIT license found in the LICENSE file.
+
+//go:build !verif
+
+package db19
+
+// verifPoint and verifStateUpdated are instrumentation points for the
+// external verification harness (build tag verif). Without the tag
+// they are empty and inlined away.
+
+func verifPoint(string) {}
+
+func verifStateUpdated(*DbState) {}
